@@ -11,11 +11,11 @@ package main
 //	     (bcq.loader.afterClosedCheck = token taken, before Lock;  bcq.loader.polled = between pool.Poll() and the
 //	     channel try-send, lock held).  The driving thread performs
 //	     o:v Offer (started asynchronously while the loader holds the lock: "pending", joined when the pass ends)
-//	     p Poll   t TakeWithTimeout   r non-blocking receive on GetChannel()   n Count
+//	     p Poll   t TakeWithTimeout   T Take (only when the channel is non-empty)   r non-blocking receive on GetChannel()   n Count
 //	     L let the loader take the lock and reach its first pool.Poll() ("polled") or finish ("pass-done")
 //	     S let the loader try-send the polled value: "moved polled" | "moved pass-done" | "unshift pass-done"
 //	     After every finished pass a token is posted (GetChannel) and the loader is awaited at afterClosedCheck.
-//	stress c=C b=B p=P k=K n=N mode=poll|take|chan seed=S     free-running producers/consumers/loader with monitors
+//	stress c=C b=B p=P k=K n=N mode=poll|take|chan|takeb seed=S     free-running producers/consumers/loader with monitors
 //	     observation: ok accepted=P*N delivered=P*N  (c ≥ 1)  |  ok safe  (c = 0: stranding is legitimate)  |  viol <kind> …
 
 import (
@@ -216,6 +216,11 @@ func (m *c07Sched) step(tok string) (out string) {
 			return "skip"
 		}
 		return c07ShowVal(m.q.TakeWithTimeout(40 * time.Millisecond))
+	case tok == "T":
+		if inpass || len(m.handle) == 0 {
+			return "skip"
+		}
+		return c07ShowVal(m.q.Take())
 	case tok == "r":
 		select {
 		case v, ok := <-m.handle:
@@ -365,6 +370,7 @@ func c07Stress(c, b, p, k, n int, mode string, seed int64) string {
 					if err == nil {
 						acceptedBy[t] = append(acceptedBy[t], v)
 						atomic.AddInt64(&accepted, 1)
+						atomic.StoreInt64(&lastProgress, time.Now().UnixNano())
 						break
 					}
 					if err != fpgo.ErrQueueIsFull {
@@ -417,6 +423,11 @@ func c07Stress(c, b, p, k, n int, mode string, seed int64) string {
 					if err == fpgo.ErrQueueTakeTimeout {
 						continue
 					}
+				case "takeb": // blocking Take only: released by Close at the end of the case
+					v, err = q.Take()
+					if err == fpgo.ErrQueueIsClosed {
+						return
+					}
 				default:
 					select {
 					case x, ok := <-q.GetChannel():
@@ -463,14 +474,22 @@ func c07Stress(c, b, p, k, n int, mode string, seed int64) string {
 	pdone := make(chan struct{})
 	go func() { wg.Wait(); close(pdone) }()
 	stranded := false
-	select {
-	case <-pdone:
-	case <-time.After(40 * time.Second):
-		setViol("viol producers-stuck")
+	idle := func() bool { return time.Since(time.Unix(0, atomic.LoadInt64(&lastProgress))) > 8*time.Second }
+waitProducers:
+	for {
+		select {
+		case <-pdone:
+			break waitProducers
+		case <-time.After(2 * time.Millisecond):
+			if idle() { // nothing accepted and nothing delivered for 8 s although producers keep offering
+				stranded = true
+				break waitProducers
+			}
+		}
 	}
 	if retry {
-		for atomic.LoadInt64(&delivered) < atomic.LoadInt64(&accepted) {
-			if time.Since(time.Unix(0, atomic.LoadInt64(&lastProgress))) > 8*time.Second {
+		for !stranded && atomic.LoadInt64(&delivered) < atomic.LoadInt64(&accepted) {
+			if idle() {
 				stranded = true
 				break
 			}
@@ -480,15 +499,43 @@ func c07Stress(c, b, p, k, n int, mode string, seed int64) string {
 		time.Sleep(30 * time.Millisecond)
 	}
 	close(stop)
-	cwg.Wait()
+	if mode != "takeb" {
+		cwg.Wait()
+	}
 	swg.Wait()
 	<-pdone
-	// quiescent now (the loader may still run, Count takes the read lock)
-	acc, del := int(atomic.LoadInt64(&accepted)), int(atomic.LoadInt64(&delivered))
+	// quiescent now: producers and non-blocked consumers have returned; consumers of mode takeb are blocked in a
+	// channel receive.  Count (read lock) against accepted - delivered, read stably.
 	res := ""
 	violMu.Lock()
 	res = viol
 	violMu.Unlock()
+	countOK, lastCnt, lastHeld := false, 0, 0
+	for try := 0; try < 200 && !countOK; try++ {
+		d1 := atomic.LoadInt64(&delivered)
+		cnt := q.Count()
+		d2 := atomic.LoadInt64(&delivered)
+		lastCnt, lastHeld = cnt, int(atomic.LoadInt64(&accepted)-d2)
+		if d1 == d2 && cnt == lastHeld {
+			countOK = true
+		} else {
+			time.Sleep(time.Millisecond)
+		}
+	}
+	cdone := make(chan struct{})
+	go func() { q.Close(); close(cdone) }()
+	select {
+	case <-cdone:
+	case <-time.After(c07Wait):
+	}
+	cw := make(chan struct{})
+	go func() { cwg.Wait(); close(cw) }()
+	select {
+	case <-cw:
+	case <-time.After(c07Wait):
+		return "viol consumers-stuck-after-close"
+	}
+	acc, del := int(atomic.LoadInt64(&accepted)), int(atomic.LoadInt64(&delivered))
 	if res == "" && atomic.LoadInt64(&panics) != 0 {
 		res = "viol panic"
 	}
@@ -544,19 +591,11 @@ func c07Stress(c, b, p, k, n int, mode string, seed int64) string {
 	if res == "" && stranded {
 		res = fmt.Sprintf("viol stranded delivered=%d of %d accepted, no progress for 8s with consumers calling %s", del, acc, mode)
 	}
-	if res == "" {
-		if cnt := q.Count(); cnt != acc-del {
-			res = fmt.Sprintf("viol count-at-quiescence Count=%d accepted-delivered=%d", cnt, acc-del)
-		}
+	if res == "" && !countOK {
+		res = fmt.Sprintf("viol count-at-quiescence Count=%d accepted-delivered=%d", lastCnt, lastHeld)
 	}
 	if res == "" && retry && (acc != total || del != total) {
 		res = fmt.Sprintf("viol lost accepted=%d delivered=%d of %d", acc, del, total)
-	}
-	cdone := make(chan struct{})
-	go func() { q.Close(); close(cdone) }()
-	select {
-	case <-cdone:
-	case <-time.After(c07Wait):
 	}
 	if res != "" {
 		return res
@@ -696,12 +735,12 @@ func c07Gen(tier string, rng *rand.Rand, emit func(string)) map[string]interface
 	for _, cf := range [][2]int{{1, 1}, {1, 2}, {2, 1}, {0, 1}, {1, 0}} {
 		exh(fmt.Sprintf("sched c=%d b=%d", cf[0], cf[1]), []string{"o", "p", "r", "L", "S", "n"}, sl, &nSched)
 	}
-	ns := 10
+	ns := 25
 	if thorough {
 		ns = 120
 	}
-	sw := map[string]int{"o": 34, "p": 9, "r": 13, "t": 1, "n": 6, "L": 13, "S": 24}
-	so := []string{"o", "p", "r", "t", "n", "L", "S"}
+	sw := map[string]int{"o": 34, "p": 8, "r": 11, "t": 1, "T": 4, "n": 6, "L": 13, "S": 23}
+	so := []string{"o", "p", "r", "t", "T", "n", "L", "S"}
 	for _, c := range []int{0, 1, 2, 3} {
 		for _, b := range []int{0, 1, 2, 5} {
 			for i := 0; i < ns; i++ {
@@ -716,16 +755,16 @@ func c07Gen(tier string, rng *rand.Rand, emit func(string)) map[string]interface
 	}
 	// 3. stress
 	sizes := []int{1, 2, 4, 8}
-	modes := []string{"poll", "take", "chan"}
-	rounds, n := 1, 300
+	modes := []string{"poll", "take", "chan", "takeb"}
+	rounds, n := 2, 300
 	if thorough {
-		rounds, n = 5, 1500
+		rounds, n = 6, 1500
 	}
 	for r := 0; r < rounds; r++ {
 		for _, c := range []int{0, 1, 2, 3} {
 			for _, b := range []int{0, 1, 2, 5} {
 				p, k := sizes[rng.Intn(4)], sizes[rng.Intn(4)]
-				mode := modes[rng.Intn(3)]
+				mode := modes[rng.Intn(4)]
 				nn := n/p + 1
 				if c == 0 {
 					nn = 40
